@@ -42,7 +42,11 @@ Mk(fr, locked, state) == [state |-> state, created |-> <<>>, locked |-> locked, 
 Plain == {Mk(fr, FALSE, "s1") : fr \in Stacks}
 Special == {Mk(fr, lk, st) : fr \in {<<>>, <<Kinds[1]>>, <<Kinds[2]>>, <<Kinds[3]>>, <<Kinds[2], Kinds[3]>>, <<Kinds[5], Kinds[1]>>},
                              lk \in BOOLEAN, st \in {"s1", "s2"}}
-SSet == Plain \cup Special
+(* the same frames with different (non-pointer) argument values: distinct buckets at every exact
+   level whose stacks the comparison cannot tell apart, so that lock and state must decide *)
+KA(v) == [Kinds[2] EXCEPT !.args = Args(<<Sc(v, FALSE)>>, FALSE)]
+SpecialArgs == {Mk(<<KA(v)>>, lk, st) : v \in {5, 6}, lk \in BOOLEAN, st \in {"s1", "s2"}}
+SSet == Plain \cup Special \cup SpecialArgs
 S == SetToSeq(SSet)       \* some fixed enumeration
 
 MCTokRank == [t \in {"", "a/wu.go", "b/wl.go", "c/a.go", "d/a.go", "m/a.go", "p/a.go", "p/b.go", "s/a.go", "u/a.go", "cf", "df", "pf", "pg", "sf", "uf", "mf", "s1", "s2"} |->
